@@ -204,6 +204,47 @@ def c17_setup_checks(seed, tier, cov):
         except (ValueError, AssertionError):
             pass
         cov["evaluations"] += 1
+    # the index follows its CURRENT components: evaluated, then given a further component (IndexMarket._add_market, the API setup itself
+    # uses), then evaluated again - both values and the fundamental recorded at the next clock step are the share-weighted averages
+    from pams.index_market import IndexMarket
+    from pams.market import Market
+    from pams.simulator import Simulator
+    rnd = random.Random(1700 + seed)
+    for trial in range(8 if tier == "quick" else 80):
+        sim = Simulator(prng=random.Random(trial))
+        comps = []
+        for k in range(3):
+            m = Market(market_id=k, prng=random.Random(k), simulator=sim, name=f"m{k}")
+            m.setup({"tickSize": 1.0, "marketPrice": float(rnd.choice([100, 200, 300, 400])), "outstandingShares": rnd.choice([100, 200, 500])})
+            sim._add_market(m, group_name="g")
+            sim.fundamentals.add_market(market_id=k, initial=float(rnd.choice([100, 250, 400])), drift=0.0, volatility=0.0)
+            comps.append(m)
+        idx = IndexMarket(market_id=3, prng=random.Random(9), simulator=sim, name="idx")
+        idx.setup({"tickSize": 1.0, "marketPrice": 100.0, "outstandingShares": 100, "markets": ["m0", "m1"]})
+        sim._add_market(idx, group_name="i")
+        sim.fundamentals.add_market(market_id=3, initial=100.0, drift=0.0, volatility=0.0)
+        sim._update_times_on_markets(sim.markets)
+
+        def avg(ms, f):
+            return sum(f(m) * m.outstanding_shares for m in ms) / sum(m.outstanding_shares for m in ms)
+        steps = []
+        try:
+            got0 = idx.compute_market_index()
+            steps.append(["market index of 2 components", got0, avg(comps[:2], lambda m: m.get_market_price())])
+            idx._add_market(comps[2])
+            got1 = idx.compute_market_index()
+            steps.append(["market index after a third component was added", got1, avg(comps, lambda m: m.get_market_price())])
+            got2 = idx.compute_fundamental_index()
+            steps.append(["fundamental index after a third component was added", got2, avg(comps, lambda m: m.get_fundamental_price())])
+            bad = [x for x in steps if abs(x[1] - x[2]) > 1e-9 * max(1.0, abs(x[2]))]
+        except Exception as e:  # noqa
+            bad = [["raised", repr(e)[:160], None]]
+        cov["evaluations"] += 1
+        if bad and len(out) < 3:
+            out.append({"rule": "index-is-share-weighted-average-of-component-prices", "at": trial,
+                        "detail": {"what": bad[0][0], "got": bad[0][1], "expected": bad[0][2],
+                                   "components": [[m.name, m.outstanding_shares, m.get_market_price(), m.get_fundamental_price()] for m in comps],
+                                   "source": "component added after the first evaluation"}})
     return out
 
 
